@@ -64,7 +64,7 @@ MANIFEST_TEXT = ('Exhaustive enumeration of ragged sequence collections against 
                  'remaining w (thorough: every w 1..31) x every list of 1..2 rows with lengths from {0,1,w-1,w,w+1,2w} and of '
                  '3 rows from {0,w-1,w,w+1} for the cyclic/quadratic fills (thorough: 3 rows from the full set for all fills, 4 rows from {0,w-1,w,w+1}) x ACGT / ACGTN / '
                  'amino acids x letter fills {cyclic, all-first, all-last, quadratic} x input {freshly encoded, sliced '
-                 'non-contiguous view, ASCII text}. Functions on every case: get_kmers, get_minimizers for EVERY k <= w, '
+                 'non-contiguous view and row-reversed view (rebuilt unread for every call), ASCII text}. Functions on every case: get_kmers, get_minimizers for EVERY k <= w, '
                  'match_string (in-row, boundary-straddling and constant patterns), get_motif_scores (finite and -inf PWM; also a '
                  '3-call history on one PWM object with the first result re-observed afterwards), '
                  'count_kmers (flat and per row), KmerEncoding.to_string/encode. Every value is compared with the definition on '
@@ -106,9 +106,9 @@ def encoding(name):
 QUICK_W = [1, 2, 3, 4, 5, 8, 16, 31]
 B_ALPHABETS = ['ACGT', 'ACGTN', 'amino']
 B_VARIANTS_T = [('fresh', 'cyclic'), ('fresh', 'first'), ('fresh', 'last'), ('fresh', 'quad'),
-                ('view', 'cyclic'), ('view', 'quad'), ('ascii', 'cyclic'), ('ascii', 'quad')]
+                ('view', 'cyclic'), ('view', 'quad'), ('revview', 'cyclic'), ('revview', 'quad'), ('ascii', 'cyclic'), ('ascii', 'quad')]
 B_VARIANTS_Q = [('fresh', 'cyclic'), ('fresh', 'first'), ('fresh', 'last'), ('fresh', 'quad'),
-                ('view', 'cyclic'), ('ascii', 'cyclic')]
+                ('view', 'cyclic'), ('revview', 'cyclic'), ('ascii', 'cyclic')]
 FULL = '{0,1,w-1,w,w+1,2w}'
 NARROW = '{0,w-1,w,w+1}'
 
@@ -383,6 +383,8 @@ def build_input(alpha_name, rows, rep):
         pad = ALPHABETS[alpha_name][-1]
         big = bnp.as_encoded_array([pad * 2] + [pad + r for r in rows] + [pad], encoding(alpha_name))
         return big[1:-1, 1:]
+    if rep == 'revview':        # the rows as a row-reversed lazy view of an array holding them in the opposite order
+        return bnp.as_encoded_array(rows[::-1], encoding(alpha_name))[::-1]
     raise ValueError(rep)
 
 
@@ -544,7 +546,7 @@ def features_of(alpha_name, rows, w, rep, unit):
     n = len(ALPHABETS[alpha_name])
     f = {'func': unit['func'], 'path': 'size4' if n == 4 else 'other-size',
          'window': '1' if w == 1 else ('2-15' if w < 16 else '16-31'),
-         'input': 'view' if rep == 'view' else 'contiguous',
+         'input': 'view' if rep in ('view', 'revview') else 'contiguous',
          'rows': 'single' if len(rows) == 1 else 'multi'}
     if unit['func'] == 'get_minimizers':
         k = unit['k']
@@ -580,6 +582,10 @@ def run_unit(res, st, alpha_name, rows, w, rep, arr, unit):
     case = {'alphabet': alpha_name, 'rows': list(rows), 'w': w, 'repr': rep, 'unit': unit}
     f = unit['func']
     res.transitions += 1
+    if rep in ('view', 'revview'):
+        # a lazy view is rebuilt for every call: reading it (also the harness's own check of its text) gathers its rows in
+        # place, after which it is an ordinary contiguous array
+        arr = build_input(alpha_name, rows, rep)
     try:
         result = call_unit(unit, arr, alpha_name, w)
         obs = observe_unit(unit, result)
